@@ -2,17 +2,23 @@
 (* What the `any` program prints for the results the library computed (C19, src/bin/any.rs).
 
    A result is [k |-> "val", num, den (decimal strings), decimal (the library's own 12/12 rendering),
-   has_numerator, unit_plural, unit_singular (the library's own unit display)] or [k |-> "err", msg].
+   u (the unit as <<[key, power, prefix]>>)] or [k |-> "err", msg].
      Line(r, exact)   the one line printed for a value
      Matches(..)      standard output consists, in order, of one Line per value and one diagnostic
                       block per error (first line "error: <msg>", ended by an empty line); then, if
                       constants were described, the heading and one line per description
-   The rendering of a decimal (C08) and of a unit name are taken from the library; this module
-   owns their composition.                                                                       *)
-EXTENDS Naturals, Sequences, TLC
+   The rendering of a decimal (C08) and the spelling of each single unit are taken from the
+   library; this module and UnitDisplay.tla own their composition (blank, plural, powers, order).                                                                       *)
+EXTENDS UnitDisplay
+CONSTANTS Names,     \* unit key -> [sg, pl]: how the tool spells each single unit
+          Syms       \* [dot, sup, micro]: the non-ASCII symbols of unit display
 IsOne(r) == r.num = "1" /\ r.den = "1"
 ValueText(r, exact) == IF exact THEN (IF r.den = "1" THEN r.num ELSE r.num \o "/" \o r.den) ELSE r.decimal
-Line(r, exact) == ValueText(r, exact) \o (IF r.has_numerator THEN " " ELSE "") \o (IF IsOne(r) THEN r.unit_singular ELSE r.unit_plural)
+\* r.u: the unit of the result as <<[key, power, prefix]>>
+CompoundOfList(us) == TLCEval([k \in {us[i][1] : i \in 1..Len(us)} |->
+                        LET i == CHOOSE j \in 1..Len(us) : us[j][1] = k IN [pw |-> us[i][2], px |-> us[i][3]]])
+Line(r, exact) == LET c == CompoundOfList(r.u) IN
+                  ValueText(r, exact) \o (IF HasNumerator(c) THEN " " ELSE "") \o UnitText(c, ~IsOne(r), Names, Syms)
 Heading == "# Description of constants used (--describe):"
 DescLine(d) == "\"" \o d.phrase \o "\" => " \o d.description
                  \o (IF ~d.has_source THEN "" ELSE IF d.url # "" THEN " (" \o d.source \o ") <" \o d.url \o ">" ELSE "(" \o d.source \o ")")
